@@ -80,10 +80,11 @@ CONSTANTS
 }
 
 const (
-	lkAllKinds   = `{"hold", "compliance", "governance", "defcompliance", "defgovernance"}`
+	lkAllKinds   = `{"hold", "compliance", "governance", "governance2", "defcompliance", "defgovernance"}`
 	lkBothKinds  = `{"versioned", "unversioned"}`
 	lkAllCallers = `{"root", "admin", "owner", "other"}`
-	lkGenPerms   = `{{}, {"owner"}, {"root", "admin", "owner", "other"}}`
+	// grants "<caller>:<scope>": scope * = every key (Resource bkt/*), or one key (Resource bkt/<key>)
+	lkGenPerms = `{{}, {"owner:*"}, {"owner:k2"}, {"root:*", "admin:*", "owner:*", "other:*"}}`
 )
 
 func parseLockBehaviours(lines []string, src string) []lockBehaviour {
@@ -121,6 +122,7 @@ func (b lockBehaviour) sig() string {
 
 type lkVersion struct {
 	Name string
+	Sym  string // symbolic key: k1 | k2
 	Key  string // concrete key
 	Vid  string // real version id ("" in an unversioned bucket)
 	C    string // content id
@@ -128,6 +130,7 @@ type lkVersion struct {
 
 type lkObs struct {
 	Name  string         `json:"name"`
+	Key   string         `json:"key"` // k1 | k2
 	Alive bool           `json:"alive"`
 	Hold  string         `json:"hold"`
 	Ret   map[string]any `json:"ret"`
@@ -311,17 +314,33 @@ func (w *lkWorld) policy(bucket, rootAccess string, grant []string) string {
 		fmt.Sprintf(`{"Effect":"Allow","Principal":%s,"Action":%s,"Resource":["arn:aws:s3:::%s"]}`,
 			q([]string{w.acc["owner"].Access}), q(bkt), bucket),
 	}
-	if len(grant) > 0 {
-		var ps []string
-		for _, g := range grant {
-			if g == "root" {
-				ps = append(ps, rootAccess)
-			} else {
-				ps = append(ps, w.acc[g].Access)
-			}
+	// one statement per scope: "<caller>:*" -> Resource bkt/*, "<caller>:k2" -> Resource bkt/<key k2>
+	byScope := map[string][]string{}
+	for _, g := range grant {
+		who, scope, _ := strings.Cut(g, ":")
+		if scope == "" {
+			scope = "*"
 		}
+		acc := rootAccess
+		if who != "root" {
+			acc = w.acc[who].Access
+		}
+		byScope[scope] = append(byScope[scope], acc)
+	}
+	var scopes []string
+	for sc := range byScope {
+		scopes = append(scopes, sc)
+	}
+	sort.Strings(scopes)
+	for _, sc := range scopes {
+		ps := byScope[sc]
 		sort.Strings(ps)
-		st = append(st, fmt.Sprintf(`{"Effect":"Allow","Principal":%s,"Action":["s3:BypassGovernanceRetention"],"Resource":["arn:aws:s3:::%s/*"]}`, q(ps), bucket))
+		res := "arn:aws:s3:::" + bucket + "/*"
+		if sc != "*" {
+			res = "arn:aws:s3:::" + bucket + "/" + lkKey(sc)
+		}
+		rj, _ := json.Marshal(res)
+		st = append(st, fmt.Sprintf(`{"Effect":"Allow","Principal":%s,"Action":["s3:BypassGovernanceRetention"],"Resource":[%s]}`, q(ps), rj))
 	}
 	return `{"Statement":[` + strings.Join(st, ",") + `]}`
 }
@@ -378,23 +397,30 @@ func (r *lkRun) setup() error {
 	if !rs.OK() {
 		return r.setupErr("put k2", rs)
 	}
-	r.tracked = []lkVersion{{Name: "P", Key: k1, Vid: pvid, C: "A"}, {Name: "S", Key: k2, Vid: rs.Header.Get("X-Amz-Version-Id"), C: "B"}}
+	r.tracked = []lkVersion{{Name: "P", Sym: "k1", Key: k1, Vid: pvid, C: "A"}, {Name: "S", Sym: "k2", Key: k2, Vid: rs.Header.Get("X-Amz-Version-Id"), C: "B"}}
 	if r.b.Ini.Pos == "noncurrent" {
 		time.Sleep(2 * time.Millisecond)
 		rn := PutObject(root, b, k1, lkBody("C"), tagHeaderMeta("C")...)
 		if !rn.OK() {
 			return r.setupErr("put newer version", rn)
 		}
-		r.tracked = append(r.tracked, lkVersion{Name: "Q", Key: k1, Vid: rn.Header.Get("X-Amz-Version-Id"), C: "C"})
+		r.tracked = append(r.tracked, lkVersion{Name: "Q", Sym: "k1", Key: k1, Vid: rn.Header.Get("X-Amz-Version-Id"), C: "C"})
 	}
 	switch r.b.Ini.Kind {
 	case "hold":
 		if rs := lkPutLegalHold(root, b, k1, pvid, true); !rs.OK() {
 			return r.setupErr("legal hold on P", rs)
 		}
-	case "compliance", "governance":
-		if rs := lkPutRetention(root, b, k1, pvid, strings.ToUpper(r.b.Ini.Kind), r.untilOf(lkTM), nil); !rs.OK() {
+	case "compliance", "governance", "governance2":
+		mode := strings.ToUpper(strings.TrimSuffix(r.b.Ini.Kind, "2"))
+		if rs := lkPutRetention(root, b, k1, pvid, mode, r.untilOf(lkTM), nil); !rs.OK() {
 			return r.setupErr("retention on P", rs)
+		}
+		if r.b.Ini.Kind == "governance2" {
+			// both keys under GOVERNANCE
+			if rs := lkPutRetention(root, b, k2, "", mode, r.untilOf(lkTM), nil); !rs.OK() {
+				return r.setupErr("retention on k2", rs)
+			}
 		}
 	case "defcompliance", "defgovernance":
 		if rs := lkPutLockConfig(root, b, true, strings.ToUpper(strings.TrimPrefix(r.b.Ini.Kind, "def"))); !rs.OK() {
@@ -413,8 +439,11 @@ func (r *lkRun) setup() error {
 	switch r.b.Ini.Kind {
 	case "hold":
 		wantHold = "ON"
-	case "compliance", "governance":
-		wantMode = strings.ToUpper(r.b.Ini.Kind)
+	case "compliance", "governance", "governance2":
+		wantMode = strings.ToUpper(strings.TrimSuffix(r.b.Ini.Kind, "2"))
+	}
+	if r.b.Ini.Kind == "governance2" && fmt.Sprint(obs[1].Ret["mode"]) != "GOVERNANCE" {
+		return fmt.Errorf("set-up did not establish GOVERNANCE on k2: observed %+v", obs[1])
 	}
 	if !p.Alive || p.Hold != wantHold || fmt.Sprint(p.Ret["mode"]) != wantMode || !r.lockOn {
 		return fmt.Errorf("set-up did not establish %s: observed %+v lockOn=%v", r.b.Ini.Kind, p, r.lockOn)
@@ -443,7 +472,7 @@ func (r *lkRun) observe() []lkObs {
 	root, b := r.cl["root"], r.bucket
 	out := make([]lkObs, 0, len(r.tracked))
 	for _, t := range r.tracked {
-		o := lkObs{Name: t.Name, Hold: "?", Ret: lkUnknownRet}
+		o := lkObs{Name: t.Name, Key: t.Sym, Hold: "?", Ret: lkUnknownRet}
 		var g *s3c.Resp
 		if r.versioned {
 			g = GetObjectVersion(root, b, t.Key, t.Vid)
@@ -612,7 +641,7 @@ func (r *lkRun) created(c, vid string) {
 	}
 	r.nnew++
 	n := fmt.Sprintf("n%d", r.nnew)
-	r.tracked = append(r.tracked, lkVersion{Name: n, Key: k1, Vid: vid, C: c})
+	r.tracked = append(r.tracked, lkVersion{Name: n, Sym: "k1", Key: k1, Vid: vid, C: c})
 	r.newNames = append(r.newNames, n)
 }
 
@@ -846,8 +875,9 @@ type lkFinding struct {
 	Rule       string `json:"rule"`
 	Name       string `json:"name"`
 	Kind       string `json:"kind"`
-	Class      string `json:"class"` // absolute (hold / COMPLIANCE) | governance
-	Has        bool   `json:"has"`   // the caller held the bypass permission
+	Class      string `json:"class"`     // absolute (hold / COMPLIANCE) | governance
+	Has        bool   `json:"has"`       // the caller held the bypass permission for the version's key
+	Elsewhere  bool   `json:"elsewhere"` // ... not for this key, but for another key of the bucket
 	StrictOnly bool   `json:"strictonly"`
 }
 
@@ -898,6 +928,8 @@ func lkValidate(c *core.Ctx, lines []map[string]any) (*lkVerdict, *tlc.Result, e
 //	... a protected version was lost although the request addressed ANOTHER version / key
 //	(the lock check of the addressed version is not what failed):
 //	  C10/destroy/<request>/<versioned|unversioned>/<absolute|governance>/collateral/<xattr|sidecar>
+//	... the caller may bypass GOVERNANCE on ANOTHER key of the bucket only (key-scoped grant):
+//	  C10/destroy/<request>/<versioned|unversioned>/governance/grant-on-other-key
 //	a lock-setting request weakened a retention / lost a version:
 //	  C10/<intact|monotone>/<request>/<what happened>/<entitled|unentitled>
 func lkFingerprint(f lkFinding, m lkLineMeta, ini lockIni, sidecar bool) string {
@@ -917,6 +949,10 @@ func lkFingerprint(f lkFinding, m lkLineMeta, ini lockIni, sidecar bool) string 
 		}
 		if !m.LockOn {
 			return core.FP("C10", "destroy", "lock-disabled", ini.Bk)
+		}
+		if f.Elsewhere {
+			// the caller's bypass permission is scoped to another key of the bucket
+			return core.FP("C10", "destroy", m.Op, ini.Bk, f.Class, "grant-on-other-key")
 		}
 		return core.FP("C10", "destroy", m.Op, ini.Bk, f.Class)
 	}
@@ -1154,7 +1190,7 @@ func C10(c *core.Ctx, replay string) {
 	if c.Thorough() {
 		jobs = []*tlcJob{mc(`{"owner", "other"}`, 4, 0, 8), mc(`{"owner", "other"}`, 3, 1, 2), mc(`{"root", "owner", "other"}`, 3, 0, 2)}
 	}
-	for _, d := range []string{"copy-unchecked", "mpu-unchecked", "lockcfg-disable"} {
+	for _, d := range []string{"copy-unchecked", "mpu-unchecked", "lockcfg-disable", "bypass-cached"} {
 		jobs = append(jobs, &tlcJob{name: "defect " + d, expect: "property", opts: tlc.Opts{Workers: 1, Timeout: 5 * time.Minute,
 			CfgText: lockCfg("SpecMC", 0, lkAllKinds, lkBothKinds, `{{}}`, `{"owner", "other"}`, 3, 0, "any", `{"`+d+`"}`,
 				"PROPERTY ProtectedIntactStmt\nCONSTRAINT Bound\nVIEW LView\n")}})
@@ -1166,6 +1202,10 @@ func C10(c *core.Ctx, replay string) {
 	// every single request of the alphabet from every initial state (exhaustive enumeration)
 	jobs = append(jobs, &tlcJob{name: "generate single (all)", src: "single", opts: tlc.Opts{Workers: 2, Timeout: c.PickDur(3, 6),
 		CfgText: lockCfg("Spec", 1, lkAllKinds, lkBothKinds, lkGenPerms, lkAllCallers, 9, 0, "any", "{}", "")}})
+	// every batch delete (all item sequences, with / without header) by the owner and the other
+	// user when the bypass is granted on ONE key only and both keys are under GOVERNANCE
+	jobs = append(jobs, &tlcJob{name: "generate batch (all)", src: "batch", opts: tlc.Opts{Workers: 1, Timeout: c.PickDur(3, 6),
+		CfgText: lockCfg("Spec", 1, `{"governance2", "defgovernance"}`, lkBothKinds, `{{"owner:k2"}, {"owner:k1"}}`, `{"owner", "other"}`, 9, 0, "batch", "{}", "")}})
 	jobs = append(jobs, sim("pairs", c.Pick(250, 4000), 2, 6, 0, "pairs", c.Seed+11))
 	jobs = append(jobs, sim("random", c.Pick(250, 4000), c.Pick(4, 5), 9, 0, "any", c.Seed+12))
 	if c.Thorough() {
